@@ -959,6 +959,40 @@ pub unsafe extern "C" fn pthread_create(
 }
 
 // ---------------------------------------------------------------------------------------------
+// CPU count: how many CPUs may this process use (taskset, cgroup cpusets, small containers)?
+// ---------------------------------------------------------------------------------------------
+
+/// 0 = the real affinity mask; k > 0 = the process sees exactly k usable CPUs
+pub static CPU_OVERRIDE: std::sync::atomic::AtomicUsize = std::sync::atomic::AtomicUsize::new(0);
+pub static AFFINITY_QUERIES: AtomicU64 = AtomicU64::new(0);
+
+#[no_mangle]
+pub unsafe extern "C" fn sched_getaffinity(pid: libc::pid_t, size: usize, mask: *mut libc::cpu_set_t) -> i32 {
+    let k = CPU_OVERRIDE.load(Ordering::Relaxed);
+    if PARTY_CLOCK.try_with(|c| c.get().is_some()).unwrap_or(false) {
+        AFFINITY_QUERIES.fetch_add(1, Ordering::Relaxed);
+    }
+    if k > 0 && !mask.is_null() && size > 0 {
+        std::ptr::write_bytes(mask as *mut u8, 0, size);
+        let bytes = mask as *mut u8;
+        for cpu in 0..k.min(size * 8) {
+            *bytes.add(cpu / 8) |= 1 << (cpu % 8);
+        }
+        return 0;
+    }
+    let r = libc::syscall(libc::SYS_sched_getaffinity, pid, size, mask);
+    if r < 0 {
+        return -1;
+    }
+    // the raw syscall returns the number of bytes written; the libc function returns 0 and zeroes the rest
+    let written = r as usize;
+    if written < size {
+        std::ptr::write_bytes((mask as *mut u8).add(written), 0, size - written);
+    }
+    0
+}
+
+// ---------------------------------------------------------------------------------------------
 // clock seam: inside a party, every clock the process can read is the simulated one
 // ---------------------------------------------------------------------------------------------
 
@@ -1215,6 +1249,15 @@ pub fn liveness_selftest() -> Result<(), String> {
     let allowed = std::thread::Builder::new().spawn(|| 7).map(|h| h.join().ok()).ok().flatten() == Some(7);
     if !refused || !allowed {
         return Err(format!("pthread_create seam: refused={refused} allowed={allowed}"));
+    }
+    // 3b-cpu. CPU count seam
+    let real_cpus = std::thread::available_parallelism().map(|n| n.get()).unwrap_or(0);
+    CPU_OVERRIDE.store(2, Ordering::Relaxed);
+    let two = std::thread::available_parallelism().map(|n| n.get()).unwrap_or(0);
+    CPU_OVERRIDE.store(0, Ordering::Relaxed);
+    let again = std::thread::available_parallelism().map(|n| n.get()).unwrap_or(0);
+    if real_cpus == 0 || again != real_cpus || (real_cpus >= 2 && two != 2) {
+        return Err(format!("sched_getaffinity seam: real {real_cpus}, overridden to 2 -> {two}, restored -> {again}"));
     }
     // 3c. clock seam: inside a party the clocks are simulated, outside they are real
     let real0 = std::time::SystemTime::now().duration_since(std::time::UNIX_EPOCH).map(|d| d.as_secs()).unwrap_or(0);
